@@ -1505,7 +1505,9 @@ class _DNF:
     @classmethod
     def extract_pq_filters(cls, pq_expr: ReadParquet, predicate_expr: Expr) -> _DNF:
         _filters = None
-        if isinstance(predicate_expr, (LE, GE, LT, GT, EQ, NE)):
+        # ``!=`` is not handed to the reader: a reader-side "!=" drops the rows
+        # whose value is missing, pandas keeps them
+        if isinstance(predicate_expr, (LE, GE, LT, GT, EQ)):
             if (
                 not isinstance(predicate_expr.right, Expr)
                 and isinstance(predicate_expr.left, Projection)
